@@ -6,6 +6,7 @@ TS = "RsslVerif.Thm.C02Sem."
 TV = "RsslVerif.Thm.C02Vec."
 TD = "RsslVerif.Thm.C02Dup."
 TX = "RsslVerif.Thm.C02Text."
+TC = "RsslVerif.Thm.C02Call."
 # the text leg: the tree C02 reasons about reaches the user as text printed by rssl_formatter (Target::Msl).  Printing and
 # reading back is property C09's; its table obligations (re-extracted precedence / associativity / side tables of
 # format_subexpression, the parser's levels, fingerprints of the hand-modelled formatter functions) and its round-trip theorems
@@ -14,6 +15,9 @@ C09_CITED = ["tables_agree", "assoc_agrees", "ternary_level", "unary_tables_agre
              "roundtrip_expr_partial", "roundtrip_subexpr_partial", "roundtrip_xexpr_partial", "roundtrip_stmt_partial",
              "roundtrip_block_partial", "roundtrip_decl_partial", "negative_literal_binds_like_minus", "source_fingerprints"]
 TEXT_THEOREMS = ["right_nested_chain_regrouped_changes_meaning"]
+CALL_THEOREMS = ["user_call_arms_as_modelled", "binds_every_parameter_of_arm", "emitted_call_binds_every_parameter",
+                 "every_call_type_has_an_arm", "emitted_call_unchanged_without_globals", "object_counted_as_argument_drops_a_default",
+                 "emittedArgCount_eq"]
 DUP_THEOREMS = ["dup_sites_guarded", "guard_rows_are_ir_constructors", "repeatable_operand_is_pure_of_sound", "repeatable_operand_is_pure",
                 "struct_cast_meaning_kept", "struct_cast_clauses", "struct_cast_refuses_iff", "tested_operand_is_pure_of_sound",
                 "rem_assign_operands_are_pure", "wf_toD", "repeatable_operand_is_pure_ir_of_sound",
@@ -40,6 +44,12 @@ def nontrivial(req, obs):
     if f[0] == "C02.dup":
         # the module contains a cast to a struct and the exporter decided about it
         return len(f) > 2 and f[2] != "-" and obs.startswith(("casts ", "diagnostic "))
+    if f[0] == "C02.call":
+        # a call that leaves out a defaulted argument of a callee that receives a parameter for a global
+        return obs.startswith("calls ") and len(f) > 2 and any(
+            e.split(" ")[3].count("d") > 0 and int(e.split(" ")[4]) > 0
+            and len(e.split(" ")[3].replace("-", "")) + (1 if e.split(" ")[1] == "MethodExternal" else 0) > int(e.split(" ")[2])
+            for e in f[2].split(" ;; ") if len(e.split(" ")) == 5)
     if f[0] == "C02.vex":
         return obs.startswith("vast ") and "(" in obs[5:40]
     if f[0] == "C02.vfn":
@@ -55,7 +65,7 @@ def nontrivial(req, obs):
 
 
 def finding_key(req, obs, detail):
-    if req.startswith(("C02.gen\t", "C02.vfn\t", "C02.vex\t", "C02.dup\t")) and not obs and not detail:
+    if req.startswith(("C02.gen\t", "C02.vfn\t", "C02.vex\t", "C02.dup\t", "C02.call\t")) and not obs and not detail:
         # probe of vlib.shrink: failures of the semantic stream are keyed by their input, so a smaller failing input is welcome
         return req
     d = (detail or "")[5:]
@@ -186,6 +196,18 @@ def search(ctx):
                "arr[next(4)]++; r.x = arr[0] + arr[1] + arr[2] + arr[3];", "r.y = (i++ > 0) ? x : bump(x);", "r = max(r, x++) + min(bump(x), r);",
                "r = select(bool3(b, !b, b), r + (int3)(x++), (int3)bump(x));", "r[(i++) & 1] += bump(x);"]:
         out.append("C02.vfn\t%sint3 f(int x, int arr[4], inout int i, int3 v, int3 varr[2], bool b) { int3 r = v; %s return r + x + i; }\t-\t\t-\t-" % (pre, st))
+    # calls that leave out defaulted arguments of a callee that receives a threaded global: the three call types x 1 / 2 left out
+    cpre = "static int bias = 10;\\nint viaHelper(int d) { bias = bias + d; return bias; }\\n"
+    for decl, call in [
+        ("struct Acc { int total; int m(int v, int w = 3) { return (total * 3 + v) * 5 + w + bias; } };", "Acc a; a.total = x; return a.m(x);"),
+        ("struct Acc { int total; int m(int v = 1, int w = 2) { return (total * 3 + v) * 5 + w + bias; } };", "Acc a; a.total = x; return a.m();"),
+        ("struct Acc { int total; int m(int v = 1, int w = 2) { return (total * 3 + v) * 5 + w + viaHelper(1); } };", "Acc a; a.total = x; return a.m(x) + a.m();"),
+        ("struct Acc { int total; int m(int v, int w = 3, int u = bias) { return ((total * 3 + v) * 5 + w) * 7 + u; } int c(int x) { return m(x) + m(x, 4); } };",
+         "Acc a; a.total = x; return a.c(x) + a.m(x);"),
+        ("int fm(int v, int w = 3, int u = 4) { return (v * 5 + w) * 7 + u + bias; }", "return fm(x) + fm(x, 9);"),
+        ("struct Acc { int total; int m(inout int v, int w = 3) { v = v + 1; return (total * 3 + v) * 5 + w + bias; } };", "Acc a; a.total = x; int y = x; return a.m(y) + y;"),
+    ]:
+        out.append("C02.vfn\t%s%s\\nint f(int x) { %s }\t-\t\t-\t-" % (cpre, decl, call))
     return out
 
 
@@ -222,8 +244,8 @@ def custom_vec(ctx):
 
 SPEC = {
     "id": "C02",
-    "gens": ["UsageTables", "MslGenTables", "MslVecTables", "MslDupSites", "FmtTables", "ParseTables", "SyntaxTables"],
-    "lean_modules": ["RsslVerif.Thm.C02", "RsslVerif.Thm.C02Sem", "RsslVerif.Thm.C02Vec", "RsslVerif.Thm.C02Dup", "RsslVerif.Thm.C02Text",
+    "gens": ["UsageTables", "MslGenTables", "MslVecTables", "MslDupSites", "MslCallTables", "FmtTables", "ParseTables", "SyntaxTables"],
+    "lean_modules": ["RsslVerif.Thm.C02", "RsslVerif.Thm.C02Sem", "RsslVerif.Thm.C02Vec", "RsslVerif.Thm.C02Dup", "RsslVerif.Thm.C02Text", "RsslVerif.Thm.C02Call",
                      "RsslVerif.Thm.C09"],
     "theorems": [T + n for n in [
         "tables_as_modelled", "all_positions_descended", "implicit_names_agree",
@@ -233,7 +255,7 @@ SPEC = {
         "threaded_exactly_partial", "calculateLocal_wf", "closeProgram_ok", "threaded_exactly_program_partial",
         "mentions_calculateLocal", "threaded_exactly",
         "default_arguments_analysed", "global_initialisers_analysed"]] + [TS + n for n in SEM_THEOREMS] + [TV + n for n in VEC_THEOREMS] + [TD + n for n in DUP_THEOREMS]
-                + [TX + n for n in TEXT_THEOREMS] + ["RsslVerif.Thm.C09." + n for n in C09_CITED],
+                + [TX + n for n in TEXT_THEOREMS] + [TC + n for n in CALL_THEOREMS] + ["RsslVerif.Thm.C09." + n for n in C09_CITED],
     "harness": "c02",
     "nontrivial": nontrivial,
     "finding_key": finding_key,
